@@ -266,3 +266,37 @@ def pcm_call_no_alpha(c):
     if ok:
         sdt, sw = S.sizer_calls[0]
         c.ob('every-weight-is-zero', IMPLIES(HAS(sw, w), EQ(VAL(sw, w), 0)))
+
+
+@harness('PortfolioConstructionModel._generate_rebalance_orders', props=['C09', 'C18'], layer='L3', functions=PCM_FUNCS)
+def pcm_orders(c):
+    """for ARBITRARY target and current dictionaries: one order per target asset whose target differs from the current
+       holding (0 when not held), quantity target - current, none of zero quantity, ascending asset order, created at dt.
+       (Assets held but absent from the target get no order here - asset ids are strings, so the second fill-in loop of the
+       function is dead code; liquidation is carried by the key union in __call__, see PortfolioConstructionModel.__call__)"""
+    w = c.key('w')
+    c.key('w2')
+    tgt = num_map(c, 'target', fields=('quantity',), gen=lambda r: float(r.choice([-30, 0, 10, 100])), pgen=lambda r: r.random() < 0.6)
+    cur = num_map(c, 'current', fields=REPORT, gen=lambda r: float(r.choice([-50, 10, 100, 250])), pgen=lambda r: r.random() < 0.5)
+    dt = c.time('dt')
+    pcm = object.__new__(PCM)
+    if c.mode == 'sym':
+        register_loops()
+    try:
+        orders = pcm._generate_rebalance_orders(dt, tgt, cur)
+    finally:
+        unregister_loops()
+    t = VAL(tgt, w, 'quantity')
+    cu = ITE(HAS(cur, w), VAL(cur, w, 'quantity'), 0.0) if c.mode == 'sym' else (cur[w]['quantity'] if w in cur else 0.0)
+    present, oq, odt, oasset = order_at(c, orders, w)
+    c.ob('order-exists-iff-targeted-and-different-from-holding', IFF(present, AND(HAS(tgt, w), NE(t, cu))))
+    if c.mode == 'sym':
+        c.ob('order-quantity-is-target-minus-current', IMPLIES(present, EQ(oq, t - cu)))
+        c.ob('order-created-at-dt-for-that-asset', IMPLIES(present, AND(EQ(odt, dt), EQ(oasset, w))))
+        c.ob('orders-in-ascending-asset-order-one-per-asset', getattr(orders, 'order', None) == 'asc', props=['C09', 'C18'])
+    else:
+        if present:
+            c.ob('order-quantity-is-target-minus-current', EQ(oq, t - cu))
+        names = [o.asset for o in orders]
+        c.ob('orders-in-ascending-asset-order-one-per-asset', names == sorted(set(names)), props=['C09', 'C18'])
+        c.ob('no-zero-quantity-order', all(o.quantity != 0 for o in orders))
